@@ -225,6 +225,17 @@ def gen_cases(tier):
                 lkq = [('q1:k', "'%s'" % v, ds, [(ma1, ua1)], {v}) for v in ('1', '2') for ds in (None, 'other.xml')] + \
                       [('k', "'%s'" % v, ds, [(ma2, ua2)], {v}) for v in ('1', '2') for ds in (None, 'rtf')]
                 yield ('qname', 'p:k = %s use %s ; k = %s use %s' % (mt1, ut1, mt2, ut2), dq, {}, mi, (mi + 1) % len(D), lkq)
+    # 2b. the same name declared twice so that BOTH declarations index the same node under the same value (node-set valued and
+    #     string valued use of the same attribute / string-value): the node is still in the result once
+    for mi_, (mt, m_ast) in enumerate(MATCHES):
+        for (ua, ub) in (('@x', 'string(@x)'), ('.', 'string(.)'), ('string(@x)', '@x'), ('name()', 'local-name()'), ("'c'", "concat('c','')")):
+            (ut1, ua1), (ut2, ua2) = P(ua), P(ub)
+            d1 = '<xsl:key name="k" match="%s" use="%s"/>' % (esc(mt), esc(ut1))
+            d2 = '<xsl:key name="k" match="%s" use="%s"/>' % (esc(mt), esc(ut2))
+            both = [(m_ast, ua1), (m_ast, ua2)]
+            lk = [('k', "'%s'" % v, ds, both, {v}) for v in ('1', '2', 'c', 'a', 'b') for ds in (None, 'other.xml', 'rtf')]
+            mi = mi_ % len(D)
+            yield ('same-name-same-value', '%s use %s + %s use %s' % (mt, ut1, mt, ut2), d1 + d2, {}, mi, (mi + 1) % len(D), lk)
     # 3. histories: all orders of a 4-lookup (quick) / 5-lookup (thorough) sequence across main document, document() and RTF, two keys
     for hi, (m1, u1) in enumerate(sel):
         mt1, ma1 = MATCHES[m1]; ut1, ua1 = USES[u1]
